@@ -103,6 +103,14 @@ func runC06(c c06case, rep *lib.Report) {
 		rep.DistrustF("C06 harness produced an unparsable request: %v", err)
 		return
 	}
+	if c.chunk < 0 {
+		// the framing of a streamed HTTP/2 upload: length unknown (-1), no transfer-encoding, body read until EOF
+		req.ContentLength, req.TransferEncoding = -1, nil
+		req.Header.Del("Content-Length")
+		req.Proto, req.ProtoMajor, req.ProtoMinor = "HTTP/2.0", 2, 0
+		req.Body = io.NopCloser(bytes.NewReader(body))
+		rep.Count("requests_of_unknown_length_without_chunking")
+	}
 	// what the client sent, as net/http presents it before the buffer touches it
 	want := seenReq{method: req.Method, url: req.URL.String(), contentLength: int64(c.size)}
 	wh := req.Header.Clone()
@@ -163,6 +171,8 @@ func runC06(c c06case, rep *lib.Report) {
 	framing := "content-length"
 	if c.chunk > 0 {
 		framing = "chunked"
+	} else if c.chunk < 0 {
+		framing = "unknown-length"
 	}
 	if rec.Panic != nil {
 		rep.Violate("C06:panic:"+framing, fmt.Sprintf("%v: panic %v", c, rec.Panic), what())
@@ -218,7 +228,7 @@ func c06cases(tier string) []c06case {
 	}
 	for _, mem := range mems {
 		for _, size := range []int{0, 1, mem - 1, mem, mem + 1, 3 * mem} {
-			for _, chunk := range []int{0, 1, 7, 1 << 20} {
+			for _, chunk := range []int{0, 1, 7, 1 << 20, -1} {
 				for _, method := range []string{"POST", "GET", "PUT"} {
 					for hs := range headerSets {
 						out = append(out, c06case{mem, size, chunk, method, hs, 1, nil})
@@ -257,7 +267,7 @@ func c06cases(tier string) []c06case {
 func RunC06(tier string, sh lib.Shard, rep *lib.Report) {
 	cases := c06cases(tier)
 	rep.Bounds["cases"] = len(cases)
-	rep.Rule = "full product memory threshold {8,64,default 1MiB} x body length {0,1,mem-1,mem,mem+1,3mem, ~1MiB(+)} x framing {Content-Length, chunked 1/7/whole} x method x header set x retry depth {1,2,3} x per-failed-attempt script (bytes consumed {0,half,all} x 8 request mutations); request parsed by http.ReadRequest from raw bytes, real buffer.ServeHTTP; every invocation's method/URL/headers/ContentLength/TransferEncoding/body compared with the client's original; non-trivial = cases with at least one retry or a spilled body"
+	rep.Rule = "full product memory threshold {8,64,default 1MiB} x body length {0,1,mem-1,mem,mem+1,3mem, ~1MiB(+)} x framing {Content-Length, chunked 1/7/whole, unknown length without chunking (HTTP/2 stream)} x method x header set x retry depth {1,2,3} x per-failed-attempt script (bytes consumed {0,half,all} x 8 request mutations); request parsed by http.ReadRequest from raw bytes, real buffer.ServeHTTP; every invocation's method/URL/headers/ContentLength/TransferEncoding/body compared with the client's original; non-trivial = cases with at least one retry or a spilled body"
 	rep.Require("requests_spilled_to_disk", "cases_with_retries")
 	for i, c := range cases {
 		if !sh.Mine(i) {
